@@ -13,6 +13,7 @@
 #include <cstdlib>
 #include <cstring>
 #include <csetjmp>
+#include <cerrno>
 #include <clocale>
 #include <string>
 #include <vector>
@@ -160,6 +161,7 @@ static void build_pools() {
         "a.onion", "example", "host", "mail.ru", "123.456", "1.2.3.4", "under_score.com", "-a.com", "a-.com", "ab--cd.com",
         "a..b.com", ".lead.com", "trail.com.", "trail.ru..", string(63, 'a') + ".com", string(64, 'a') + ".com",
         "[1.2.3.4]", "[IPv6:::1]", "[IPv6:2001:db8::1]", "[1.2.3]", "[IPv6:zz]", "[1.2.3.4", "[]", "[300.1.1.1]", " space.com",
+        "[340282366920938463463374607431768211456.0.2.1]", "[99999999999999999999.1.1.1]", "[1.2.3.18446744073709551616]", "[4294967296.1.1.1]", "[IPv6:::ffff:1.99999999999999999999999.2.3]", "[0001.2.3.4]", "[1.2.3.4.5]", "[1.2.3.256]",
         "[1.2.3.4]x", "[1.2.3.4].com", "[IPv6:::1]:25", "[1.2.3.4] ", "[1.2.3.44", "[IPv6:2001:db8::1", "x[1.2.3.4]", "[1.2.3.4]]", "[[1.2.3.4]", "[IPv6:1.2.3.4]", "[ipv6:::1]",
         "a.b.c.d.e.f.g.iana.org", "xn--p1ai.com", "xn--a.com", "xn--80a1acny.xn--p1ai", "xn---abc.com", "xn--zz--zz.com",
         "\xd0\xbf\xd0\xbe\xd1\x87\xd1\x82\xd0\xb0.\xd1\x80\xd1\x84",            // почта.рф
@@ -579,6 +581,10 @@ struct Exec {
     bool nontrivial_cmp = false, any_state_change = false, any_fired = false, any_sf_fired = false;
     vector<char *> abuf;        // reused caller buffers (amode 1/2): same pointer, new content, stale tail after the NUL
     char *tight = nullptr;      // amode 0: exact-size block, freed after the call (ASan sees any read past the terminator)
+    // errno as the caller left it: a value from the plan's stream before every library call.  A library that tests errno
+    // without clearing it first (strtoul + ERANGE ...) then answers differently on the reused and on the fresh object.
+    sim_rng errno_rng = sim_derive(plan.fill, 0xE44);
+    void poison_errno() { static const int EV[] = { 0, ERANGE, EINVAL, ENOMEM, EINTR, EDOM, EILSEQ, 9999 }; errno = EV[sim_below(&errno_rng, 8)]; }
     const char *caller_copy(int o, const string &a) {
         if (plan.amode == 0) { tight = (char *)malloc(a.size() + 1); memcpy(tight, a.data(), a.size()); tight[a.size()] = 0; return tight; }
         size_t slot = plan.amode == 2 ? 0 : (size_t)o;
@@ -642,6 +648,7 @@ struct Exec {
         g_sim_tag = SIM_TAG_NONE;
         const char *ap = caller_copy(0, k.a);     // reference runs hold the address like the history does
         g_sim_tag = SIM_TAG_REF;
+        poison_errno();
         int ret = shim_is_email(e, ap, k.a.size());
         capture(e, ret, o);
         g_sim_tag = SIM_TAG_NONE;
@@ -877,6 +884,7 @@ struct Exec {
             const char *ap = caller_copy(op.o, op.a);
             std::set<void *> prev_blocks = result_blocks(op.o);
             g_sim_tag = op.o;
+            poison_errno();
             int ret = shim_is_email(e, ap, op.a.size());
             Outcome o; capture(e, ret, o);
             g_sim_tag = SIM_TAG_NONE;
